@@ -58,6 +58,7 @@ func gen(r *vu.Rng, i int) []string {
 	}
 	ops := []string{"reset " + mode}
 	var known [][]string
+	kind := map[string]byte{} // guessed kinds ('d' / 'f'); only steers the distribution
 	nslots := 0
 	n := r.Range(4, 22)
 	for k := 0; k < n; k++ {
@@ -67,6 +68,9 @@ func gen(r *vu.Rng, i int) []string {
 		case x < 12:
 			ops = append(ops, "mkdir "+ps)
 			known = append(known, p)
+			if _, ok := kind[strings.Join(p, "/")]; !ok {
+				kind[strings.Join(p, "/")] = 'd'
+			}
 		case x < 34:
 			acc := []int{0, 0, 1, 2, 2, 2}[r.Intn(6)]
 			fl := ""
@@ -85,6 +89,10 @@ func gen(r *vu.Rng, i int) []string {
 			if r.Chance(1, 40) {
 				fl += "s"
 			}
+			isDirGuess := kind[strings.Join(p, "/")] == 'd' || len(p) == 0
+			if isDirGuess && r.Chance(4, 5) {
+				acc, fl = 0, "" // a plain read-only open of a directory
+			}
 			if fl == "" {
 				fl = "-"
 			}
@@ -92,10 +100,19 @@ func gen(r *vu.Rng, i int) []string {
 			nslots++
 			if strings.Contains(fl, "c") {
 				known = append(known, p)
+				if _, ok := kind[strings.Join(p, "/")]; !ok {
+					kind[strings.Join(p, "/")] = 'f'
+				}
 			}
-			// a directory listing right after the open
-			for r.Chance(1, 3) {
-				ops = append(ops, fmt.Sprintf("readdir %d %d", nslots-1, r.Range(-1, 2)))
+			// directory listings right after the open (before the namespace changes again)
+			if isDirGuess && r.Chance(1, 2) {
+				for j := r.Range(1, 3); j > 0; j-- {
+					ops = append(ops, fmt.Sprintf("readdir %d %d", nslots-1, r.Range(-1, 2)))
+				}
+			} else {
+				for r.Chance(1, 4) {
+					ops = append(ops, fmt.Sprintf("readdir %d %d", nslots-1, r.Range(-1, 2)))
+				}
 			}
 		case x < 50 && nslots > 0:
 			d := r.Bytes(r.Intn(5))
@@ -130,6 +147,9 @@ func gen(r *vu.Rng, i int) []string {
 			ops = append(ops, "rename "+ps+" p:"+spellPath(r, q))
 			known = append(known, q)
 		case x < 94:
+			if len(known) > 0 && r.Chance(2, 3) {
+				ps = "p:" + spellPath(r, known[r.Intn(len(known))])
+			}
 			ops = append(ops, "removeall "+ps)
 		case x < 98:
 			ops = append(ops, "stat "+ps)
